@@ -24,7 +24,17 @@ pub struct StorageHandle<Db> {
 
 impl<Db> Clone for StorageHandle<Db> {
     fn clone(&self) -> Self {
-        *self.coordinate.clones.lock() += 1;
+        #[cfg(not(salsa_verif))]
+        {
+            *self.coordinate.clones.lock() += 1;
+        }
+        #[cfg(salsa_verif)]
+        {
+            let mut clones = self.coordinate.clones.lock();
+            *clones += 1;
+            let n = *clones;
+            crate::verif_trace::emit_with("cancel", "clone", |_, o| o.push_str(&n.to_string()));
+        }
 
         Self {
             zalsa_impl: self.zalsa_impl.clone(),
@@ -175,6 +185,13 @@ impl<Db: Database> Storage<Db> {
             while *clones != 1 {
                 clones = self.handle.coordinate.cvar.wait(clones);
             }
+            #[cfg(salsa_verif)]
+            {
+                let n = *clones;
+                crate::verif_trace::emit_with("cancel", "proceed", |_, o| {
+                    o.push_str(&n.to_string())
+                });
+            }
         }
 
         // The ref count on the `Arc` should now be 1
@@ -277,7 +294,17 @@ impl std::ops::Deref for CoordinateDrop {
 
 impl Drop for CoordinateDrop {
     fn drop(&mut self) {
-        *self.0.clones.lock() -= 1;
+        #[cfg(not(salsa_verif))]
+        {
+            *self.0.clones.lock() -= 1;
+        }
+        #[cfg(salsa_verif)]
+        {
+            let mut clones = self.0.clones.lock();
+            *clones -= 1;
+            let n = *clones;
+            crate::verif_trace::emit_with("cancel", "drop", |_, o| o.push_str(&n.to_string()));
+        }
         self.0.cvar.notify_all();
     }
 }
